@@ -178,21 +178,27 @@ PROPS = {
         "not_covered": [],
     },
     "C09": {
-        "v_units": ["range.py"],
+        "v_units": ["range.py", "range_lemmas.py"],
         "r": [("widgets", lambda n: n.startswith("range."))],
         "claim": "layout of the range gadget for EVERY width 0..=256 (loop invariants, no bound): range_check_even emits exactly "
                  "rce_rows(nb) (ceil(nb/8) selected rows, accumulators on D,C,B,A most-significant first, unselected carrier row, closing "
                  "equality), range_check adds the lower/top split for odd widths, component_range_bits::<B> == range_check(B), "
                  "component_range::<P> == range_check_even(min(2P,256)); lemma: both entry points emit identical rows for equal widths; "
-                 "range widget (prover quotient term, linearisation, verifier commitment term) == sum kappa^k * delta(quad differences).",
+                 "range widget (prover quotient term, linearisation, verifier commitment term) == sum kappa^k * delta(quad differences); "
+                 "SEMANTIC LEMMAS over exactly those rows: (soundness) rows satisfied by canonical values + closing equality ==> "
+                 "witness < 2^nb for every even nb in 2..=254 (induction over the accumulator chain, 4^127 < r), and for every odd nb in "
+                 "1..=253 via the lower/top split; (completeness) for every v < 2^nb the honest chain v div 4^(nq-i) satisfies every quad "
+                 "condition, is 0 on the padding positions and ends in v.",
         "technique": "contract-based deductive verification: Verus loop invariants on the real range_check_even/range_check (overlay) + "
                      "ring/trace checker for the range widget",
         "level_note": "Assumed: cut_le_bits (BitIterator8 bit extraction, 3 statements), BlsScalar::{to_bits,pow_of_2}, composer leaves. "
-                      "Not yet proved: honest accumulator VALUES and the interval lemma rows_sat <=> cv(w) < 2^nb.",
+                      "Row semantics used by the lemmas: each of the four quad differences of a selected row is in {0,1,2,3} (the separation "
+                      "challenge separating the four delta terms is the protocol-level assumption). Axiom: r prime. Not proved: that the "
+                      "CODE's accumulator values are the honest chain (values are not part of the layout contract).",
         "design_ref": "DESIGN.md §4 C09",
         "assumptions": A_VERUS + A_RING,
         "trusted": T_VERUS + T_RING,
-        "not_covered": ["interval lemma (rows satisfiable iff value < 2^width)", "honest accumulator values"],
+        "not_covered": ["honest accumulator values computed by the code", "widths 255/256 (documented as constraining nothing)"],
     },
     "C10": {
         "v_units": ["logic.py"],
